@@ -84,6 +84,31 @@ def segments : Bytes → List Bytes × Bytes
       | [] => ([], b :: r.2)
       | p :: ps => ((b :: p) :: ps, r.2)
 
+/-! ### the TCP reader thread
+
+    TCPTransport.run (gateway_tcp.py):   while self.alive:
+                                             data = self.sock.recv(120)      # when readable
+                                             if data: self.protocol.data_received(data)
+                                             self._check_connection(); time.sleep(0.02)
+  `reads` are the results of the successive `recv` calls (`none`: the socket was not readable in
+  that iteration, `some []`: a read that returned nothing).  Only a non-empty read reaches the
+  protocol. -/
+def tcpReader (dec : Bytes → Str) (f : Framer) : List (Option Bytes) → Framer × List Str
+  | [] => (f, [])
+  | none :: rs => tcpReader dec f rs
+  | some d :: rs =>
+    if d.isEmpty then tcpReader dec f rs
+    else
+      let r := dataReceived dec f d
+      let r' := tcpReader dec r.1 rs
+      (r'.1, r.2 ++ r'.2)
+
+/-- the bytes the socket delivered, in order -/
+def readBytes : List (Option Bytes) → Bytes
+  | [] => []
+  | none :: rs => readBytes rs
+  | some d :: rs => d ++ readBytes rs
+
 /-! ### connection events between the `data_received` calls
 
   Every gateway class hands ONE protocol object to every connection it ever makes
